@@ -47,7 +47,7 @@ def verify(seed):
         res['demo_cmd'] = cmd
         rc0, out0 = sh(cmd, wt); res['demo_passes_without_change'] = rc0 == 0
         if rc0 != 0: res['demo_without_output'] = out0[-1500:]
-        rc, out = subprocess.run(['git', '-C', wt, 'apply', os.path.join(os.path.abspath(seed), 'patch.diff')], capture_output=True, text=True).returncode, ''
+        rc, out = subprocess.run(['git', '-C', wt, 'apply', os.path.join(os.path.abspath(seed), 'patch_on_fixed_tree.diff' if (commit == 'HEAD' and os.path.exists(os.path.join(seed, 'patch_on_fixed_tree.diff'))) else 'patch.diff')], capture_output=True, text=True).returncode, ''
         res['patch_applies'] = rc == 0
         if rc == 0:
             rcb, outb = sh('go build ./cmd/keymasterd/ ./lib/... ./keymasterd/... ./eventmon/... 2>&1 | grep -v libudev | grep -v "^#" ; true', wt)
@@ -64,7 +64,8 @@ def verify(seed):
         subprocess.run(['git', '-C', '/repo', 'worktree', 'remove', '--force', wt], capture_output=True)
         shutil.rmtree(wt, ignore_errors=True)
     res['ok'] = bool(res.get('demo_passes_without_change') and res.get('demo_fails_with_change') and res.get('suite_passes_with_change'))
-    json.dump(res, open(os.path.join(seed, 'verified.json'), 'w'), indent=1)
+    res['patch_file'] = 'patch_on_fixed_tree.diff' if (commit == 'HEAD' and os.path.exists(os.path.join(seed, 'patch_on_fixed_tree.diff'))) else 'patch.diff'
+    json.dump(res, open(os.path.join(seed, 'verified_on_fixed_tree.json' if res['patch_file'] != 'patch.diff' else 'verified.json'), 'w'), indent=1)
     print(sid, 'OK' if res['ok'] else 'NOT-OK', {k: v for k, v in res.items() if k in ('demo_passes_without_change', 'demo_fails_with_change', 'suite_passes_with_change', 'patch_applies')}, flush=True)
 
 
